@@ -6,6 +6,8 @@ package main
 import (
 	"fmt"
 	"go/ast"
+
+	"golang.org/x/tools/go/ssa"
 	"go/constant"
 	"go/token"
 	"go/types"
@@ -23,6 +25,7 @@ type Env struct {
 	pkg      *types.Package
 	li       *loopInfo
 	depth    int
+	iterSnap map[ssa.Value]string // frozen iterator "visited" sets (clauses instantiated later)
 }
 
 type specErr string
@@ -170,6 +173,7 @@ func (env *Env) eval(e ast.Expr) Value {
 		if kindOf(at) == kIface {
 			return Value{T: at, F: xv.F}
 		}
+		env.x.assumeBoxed(env.s, xv.F[1].S, at, eq(xv.F[0].S, env.x.v.tagOf(at)))
 		return env.x.unbox(env.s, xv.F[1].S, at)
 	case *ast.CompositeLit:
 		ct := env.resolveType(t.Type)
